@@ -36,14 +36,10 @@ def h2x : Header := { index := 2, hash := 12, prevHash := 11, merkleRoot := 0, t
 
 /-! ### C06 (2): a rejected block changes nothing
 
-Full statement (FALSE for the code as written, see `reject_changes_ledger_after_failed_store`):
-
-    addBlock env s b = (s', some e) → s'.cfg = s.cfg ∧ s'.blockHeight = s.blockHeight ∧
-      s'.ledger = s.ledger ∧ s'.pool = s.pool ∧ (header chain unchanged ∨ extended by exactly b.hdr, validly linked and signed)
-
-Proved: the same with the ledger conjunct weakened to "unchanged unless storeBlock executed the
-block (AddMPTBatch done) and failed afterwards" — i.e. at full strength for every rejection reason
-except a post-execution storeBlock failure (`e = .store` with `env.apply s.ledger b = some _`). -/
+The FULL statement is `reject_changes_nothing` in Props/C06Rules.lean (since the fixes b358bb1 and
+"reload the state trie when a block is processed but not stored" a failing storeBlock leaves no trace).
+The two theorems below are the weaker forms proved while the code still violated the full statement; they
+remain true and are kept as lemmas. The old behaviour and its negation witnesses: Props/C06Old.lean. -/
 
 /-- C06 (2), partial: a rejected block changes neither configuration, height nor mempool; the ledger
 is untouched unless storeBlock executed the block and then failed (`LedgerAfterReject`); the header
@@ -87,13 +83,9 @@ block 1 does not produce (46): storeBlock executes block 1 and then fails -/
 def h2bad : Header := { index := 2, hash := 12, prevHash := 11, merkleRoot := 0, ts := 7, nextConsensus := 7, sre := true, prevStateRoot := 99, wit := 19 }
 def exBadNext : Node (Nat × Nat) := { exNode with headers := [g0, h1, h2bad] }
 
-/-- negation witness of the full statement (findings failed-store-corrupts-trie and
-failed-store-corrupts-transfer-log: the in-memory trie resp. the entry counter of a stored token transfer
-log are modified in place by the execution that precedes the failing check): the block is rejected, yet
-the node's ledger is not the one it had. -/
-theorem reject_changes_ledger_after_failed_store :
-    (addBlock exEnv exBadNext b1).2 = some .store ∧
-      (addBlock exEnv exBadNext b1).1.ledger ≠ exBadNext.ledger := by decide
+-- the block is rejected (store) and the node is exactly what it was
+example : (addBlock exEnv exBadNext b1).2 = some .store ∧
+    (addBlock exEnv exBadNext b1).1.ledger = exBadNext.ledger := by decide
 
 /-! ### C06 (1): only valid extensions are accepted -/
 
@@ -226,8 +218,7 @@ theorem duplicate_tx_rejected :
 
 /-! ### C06 (3) -/
 
-/-! Full statement (FALSE for the code as written, see `correct_refused_after_failed_store`): without
-the hypothesis `hled`. -/
+/-! The FULL statement (no ledger hypothesis) is `correct_still_accepted` in Props/C06Rules.lean. -/
 
 /-- C06 (3), partial: after any rejected block `b'` that left the ledger alone (every rejection except
 a storeBlock failure after execution, by `reject_changes_nothing_unless_store`), a block `b` that the
@@ -247,13 +238,11 @@ theorem correct_still_accepted_partial (env : Env L) (s s' t : Node L) (b' b : B
 /-- a node that skips block verification, with the headers of blocks 1 and 2 recorded -/
 def exSkip : Node (Nat × Nat) := { exNode with cfg := { exCfg with skip := true }, headers := [g0, h1, h2x] }
 
-/-- negation witness (finding failed-store-corrupts-trie): a body with another transaction list under
-block 1's header is executed and rejected by the next header's PrevStateRoot; afterwards the valid
-block 1, which the untouched node accepts, is refused. -/
-theorem correct_refused_after_failed_store :
-    (addBlock exEnv exSkip b1).2 = none ∧
-      (addBlock exEnv exSkip { b1 with txs := [t42, t50] }).2 = some .store ∧
-      (addBlock exEnv (addBlock exEnv exSkip { b1 with txs := [t42, t50] }).1 b1).2 = some .store := by decide
+-- a body with another transaction list under block 1's header is executed and refused by header 2's
+-- PrevStateRoot; afterwards the valid block 1 is accepted (it was refused before the trie-reload fix)
+example : (addBlock exEnv exSkip b1).2 = none ∧
+    (addBlock exEnv exSkip { b1 with txs := [t42, t50] }).2 = some .store ∧
+    (addBlock exEnv (addBlock exEnv exSkip { b1 with txs := [t42, t50] }).1 b1).2 = none := by decide
 
 -- non-vacuity: the emptied block is rejected leaving its header, the real block is then accepted
 example : (addBlock exEnv exNode { b1 with txs := [] }).2 = some .merkle ∧
